@@ -420,7 +420,7 @@ pub fn run(ctx: &mut Ctx) {
     record_section(ctx);
     ctx.more_samples(2);
     let n = ctx.nshards as u32;
-    drive(ctx, "frames", ctx.tier.pick(50_000, 1_500_000) / n, 24, 300, |ctx, bytes| {
+    drive(ctx, "frames", ctx.tier.pick(200_000, 3_000_000) / n, 24, 300, |ctx, bytes| {
         let mut c = Choices::new(bytes);
         let f = gen_frame(&mut c);
         let (chain, _) = parse_chain(&f.bytes);
